@@ -1,7 +1,7 @@
 (* Eval/TypeEval.v — executable model of type evaluation functions
    (pyanalyze/type_evaluation.py: ConditionEvaluator.visit_Call / visit_is_of_type /
    visit_UnaryOp / visit_Compare / visit_BoolOp, decompose_union, unite_varmaps,
-   EvaluateVisitor.visit_block / visit_If / visit_Return / visit_show_error,
+   EvaluateVisitor.visit_block / visit_If (with the fall-through varmaps) / visit_Return / visit_show_error,
    CombinedReturn, _evaluate_ret) and the reference interpreter of
    docs/type_evaluation.md on union-free arguments.  No proofs in this file.
 
@@ -66,13 +66,17 @@ Fixpoint lookup (rho : varmap) (v : var) : option (list member) :=
   | (w, ms) :: rest => if w =? v then Some ms else lookup rest v
   end.
 
+(* a variable that is not bound holds the single member 0 (never exercised by the
+   harness: every variable a body mentions is a parameter and is bound); this
+   makes "every variable is union-free" a satisfiable property of a finite map *)
 Definition get (rho : varmap) (v : var) : list member :=
-  match lookup rho v with Some ms => ms | None => [] end.
+  match lookup rho v with Some ms => ms | None => [0] end.
 
 Definition has_key (vm : varmap) (v : var) : bool :=
   match lookup vm v with Some _ => true | None => false end.
 
 Definition nodupn := nodup Nat.eq_dec.
+Definition is_nil {A : Type} (l : list A) : bool := match l with [] => true | _ => false end.
 
 (* unite_varmaps: keys = intersection of the key sets; values united *)
 Definition unite_varmaps (vms : list varmap) : option varmap :=
@@ -98,11 +102,14 @@ Section Model.
   Variable acc : typ -> member -> bool -> bool.
   Variable narrow : typ -> member -> list member.
   Variable posof : var -> posn.
+  (* is the member Any (a universally assignable value that a permissive match converts) *)
+  Variable isany : member -> bool.
 
   (* visit_is_of_type + decompose_union *)
   Definition is_of_type (rho : varmap) (v : var) (T : typ) (ex : bool) : cret :=
     let val := get rho v in
-    let narrowed := nodupn (flat_map (narrow T) val) in
+    (* the positive branch narrows the members that matched (repaired: not the whole value) *)
+    let narrowed := nodupn (flat_map (narrow T) (filter (fun m => acc T m ex) val)) in
     if forallb (fun m => acc T m ex) val then (Some [(v, narrowed)], None)
     else if existsb (fun m => acc T m ex) val
          then (Some [(v, narrowed)], Some [(v, filter (fun m => negb (acc T m ex)) val)])
@@ -138,35 +145,61 @@ Section Model.
         end
     end.
 
+  (* visit_block keeps only the bindings of a fall-through varmap that remove
+     members of the variable's current value (no converted values), and none at
+     all for a variable whose current value has an Any member *)
+  Definition only_removals (rho f : varmap) : varmap :=
+    filter (fun b => negb (existsb isany (get rho (fst b)))
+                     && forallb (fun m => existsb (Nat.eqb m) (get rho (fst b))) (snd b)) f.
+
   (* EvalReturn: None = [None], a Value = [Some r], CombinedReturn cs = cs *)
   Definition eret := list (option rtype).
   Definition is_some {A : Type} (o : option A) : bool := match o with Some _ => true | None => false end.
   Fixpoint somes {A : Type} (l : list (option A)) : list A :=
     match l with [] => [] | Some x :: l' => x :: somes l' | None :: l' => somes l' end.
 
-  Fixpoint eval_stmt (rho : varmap) (s : stmt) : eret * list msg :=
+  (* fall-through varmaps (repaired visit_block / visit_If): how the variables
+     are narrowed for the code after a statement; None = the statement always
+     returns.  {**l, **f} is f ++ l (first binding wins). *)
+  Definition ft_join (l : varmap) (ft : option varmap) : option varmap :=
+    match ft with Some f => Some (f ++ l) | None => None end.
+  Definition ft_unite (a b : option varmap) : option varmap :=
+    match a, b with
+    | Some u, Some v => unite_varmaps [u; v]
+    | Some u, None => Some u
+    | None, _ => b
+    end.
+
+  Fixpoint eval_stmt (rho : varmap) (s : stmt) : eret * list msg * option varmap :=
     match s with
-    | SPass => ([None], [])
-    | SReturn r => ([Some r], [])
-    | SError m => ([None], [m])
+    | SPass => ([None], [], Some [])
+    | SReturn r => ([Some r], [], None)
+    | SError m => ([None], [m], Some [])
     | SIf c body orelse =>
         match eval_cond rho c with
         | (Some l, Some r) =>
-            let (r1, e1) := eval_block (l ++ rho) body [] in
-            let (r2, e2) := eval_block (r ++ rho) orelse [] in
-            (r1 ++ r2, e1 ++ e2)
-        | (Some l, None) => eval_block (l ++ rho) body []
-        | (None, Some r) => eval_block (r ++ rho) orelse []
-        | (None, None) => ([None], [])
+            let '(r1, e1, f1) := eval_block (l ++ rho) body [] [] in
+            let '(r2, e2, f2) := eval_block (r ++ rho) orelse [] [] in
+            (r1 ++ r2, e1 ++ e2, ft_unite (ft_join l f1) (ft_join r f2))
+        | (Some l, None) =>
+            let '(r1, e1, f1) := eval_block (l ++ rho) body [] [] in (r1, e1, ft_join l f1)
+        | (None, Some r) =>
+            let '(r2, e2, f2) := eval_block (r ++ rho) orelse [] [] in (r2, e2, ft_join r f2)
+        | (None, None) => ([None], [], Some [])
         end
     end
-  with eval_block (rho : varmap) (b : block) (possible : list rtype) : eret * list msg :=
+  with eval_block (rho : varmap) (b : block) (possible : list rtype) (narrowed : varmap)
+       : eret * list msg * option varmap :=
     match b with
-    | BNil => (map Some possible ++ [None], [])
+    | BNil => (map Some possible ++ [None], [], Some narrowed)
     | BCons s b' =>
-        let (res, e) := eval_stmt rho s in
-        if forallb is_some res then (map Some possible ++ res, e)
-        else let (res', e') := eval_block rho b' (possible ++ somes res) in (res', e ++ e')
+        let '(res, e, ft) := eval_stmt rho s in
+        if forallb is_some res then (map Some possible ++ res, e, None)
+        else
+          (* narrow only when some members returned here (result is not None) *)
+          let f := match ft with Some f => if is_nil (somes res) then [] else only_removals rho f | None => [] end in
+          let '(res', e', ft') := eval_block (f ++ rho) b' (possible ++ somes res) (f ++ narrowed) in
+          (res', e ++ e', ft')
     end.
 
   (* Evaluator.evaluate + _evaluate_ret: the set of returned types (None = the
@@ -174,7 +207,7 @@ Section Model.
   Definition default_to (dflt : rtype) (o : option rtype) : rtype := match o with Some r => r | None => dflt end.
 
   Definition evaluate (rho : varmap) (body : block) (dflt : rtype) : list rtype * list msg :=
-    let (res, errs) := eval_block rho body [] in
+    let '(res, errs, _) := eval_block rho body [] [] in
     (nodupn (map (default_to dflt) res), nodupn errs).
 
   (* ======================================================================= *)
